@@ -330,11 +330,39 @@ public:
         return make_rcp<const Poly>(vars, std::move(d));
     }
 
+    //! true for the zero polynomial or a single term with all exponents zero
+    bool is_constant_poly() const
+    {
+        if (poly_.dict_.empty())
+            return true;
+        if (poly_.dict_.size() != 1)
+            return false;
+        for (const auto &ex : poly_.dict_.begin()->first) {
+            if (ex != 0)
+                return false;
+        }
+        return true;
+    }
+
     int compare(const Basic &o) const override
     {
         SYMENGINE_ASSERT(is_a<Poly>(o))
 
         const Poly &s = down_cast<const Poly &>(o);
+
+        // Constant polynomials are equal irrespective of their variables
+        // (see __eq__): order them by value only, before all others.
+        bool c1 = is_constant_poly(), c2 = s.is_constant_poly();
+        if (c1 or c2) {
+            if (not(c1 and c2))
+                return c1 ? -1 : 1;
+            if (poly_.dict_.size() != s.poly_.dict_.size())
+                return poly_.dict_.size() < s.poly_.dict_.size() ? -1 : 1;
+            if (poly_.dict_.empty())
+                return 0;
+            return unified_compare(poly_.dict_.begin()->second,
+                                   s.poly_.dict_.begin()->second);
+        }
 
         if (vars_.size() != s.vars_.size())
             return vars_.size() < s.vars_.size() ? -1 : 1;
